@@ -83,6 +83,15 @@ def _cases(tier, rng):
         for st in STORAGES:
             yield {"prog": prog, "storage": st, "scoped": (q + len(st)) % 4 == 0}
         q += 1
+    # the run was *given* a value for a parameter that also has an (array) default: what is reloaded is the given value
+    want, tries = (6 if tier == "quick" else 60), 0
+    while want and tries < 20000:
+        tries += 1
+        prog = progs.gen_map_program(rng, n_funcs=rng.randint(1, 2))
+        if any(p in prog["inputs"] and not prog["inputs"][p].get("omit")
+               for f in prog["funcs"] for p in f.get("defaults", {})):
+            yield {"prog": prog, "storage": STORAGES[want % len(STORAGES)], "scoped": False}
+            want -= 1
 
 
 def _storage_arg(prog, st):
